@@ -108,7 +108,15 @@ func runC06c(c c06cCase, o *vfutil.Obs) *vfutil.Failure {
 			if s == nil {
 				continue
 			}
-			if err := s.getRaft().Snapshot().Error(); err != nil {
+			serr := make(chan error, 1)
+			go func(f interface{ Error() error }) { serr <- f.Error() }(s.getRaft().Snapshot())
+			var err error
+			select {
+			case err = <-serr:
+			case <-time.After(20 * time.Second):
+				err = fmt.Errorf("no answer within 20s")
+			}
+			if err != nil {
 				hist = append(hist, fmt.Sprintf("snapshot(%s)=err(%v)", id, err))
 				continue
 			}
@@ -253,6 +261,23 @@ func runC06c(c c06cCase, o *vfutil.Obs) *vfutil.Failure {
 		}
 		time.Sleep(10 * time.Millisecond)
 	}
+	// Raft reports an index as applied when it has been handed to the FSM, which
+	// may still be working on it: a disagreement only counts if it persists
+	agree := func() bool {
+		for _, id := range ids[1:] {
+			if views[id] != views[ids[0]] {
+				return false
+			}
+		}
+		return true
+	}
+	for wait := time.Now().Add(30 * time.Second); !agree() && time.Now().Before(wait); {
+		time.Sleep(100 * time.Millisecond)
+		for _, id := range ids {
+			views[id] = c06cView(cl.srv[id])
+		}
+		o.Label("views-needed-settling")
+	}
 	for _, id := range ids[1:] {
 		if views[id] != views[ids[0]] {
 			// the committed operations, for the report
@@ -272,7 +297,7 @@ func runC06c(c c06cCase, o *vfutil.Obs) *vfutil.Failure {
 					}
 				}
 			}
-			return vfutil.Failf("C06/servers-disagree/"+c06DiffClass(views[ids[0]], views[id]), "history %v; committed operations %v: after all servers applied the same Raft index, server %s holds\n%s\nbut server %s holds\n%s", hist, log, ids[0], views[ids[0]], id, views[id])
+			return vfutil.Failf("C06/servers-disagree/"+c06DiffClass(views[ids[0]], views[id]), "history %v; committed operations %v: 30 s after all servers reported the same applied Raft index, server %s holds\n%s\nbut server %s holds\n%s", hist, log, ids[0], views[ids[0]], id, views[id])
 		}
 	}
 	if restarts > 0 {
